@@ -340,8 +340,17 @@ def gen_build(rng):
         cs = carrier if carrier and rng.random() < 0.4 else None
         g.add(wallet if rng.random() < 0.85 else other, coin, rand_assets(rng), pa=rng.random() < 0.3 or bool(cs), script=cs)
     # money to pay for outputs and fee
-    for _ in range(rng.choice([0, 1, 1, 2])):
-        g.add(wallet, rng.choice([15000000, 40000000, 1000000000]), rand_assets(rng) if rng.random() < 0.3 else [])
+    deployed = rng.random() < 0.15
+    if deployed:
+        # a wallet whose spendable UTxOs are the ones scripts were deployed on: whatever coin selection adds to the inputs
+        # brings reference-script bytes the ledger charges for, AFTER the builder's first fee estimate
+        pp['min_fee_reference_scripts'] = dict(STEEP) if rng.random() < 0.8 else {'base': 2000, 'range': 100, 'multiplier': 1.2}
+        for k in range(rng.randint(3, 5)):
+            g.add(wallet, rng.choice([8000000, 12000000, 20000000]) + k, [], pa=True,
+                  script=plutus_script(rng, variant=3 + k, kinds=('v2', 'v3'), sizes=(120, 400, 400)))
+    else:
+        for _ in range(rng.choice([0, 1, 1, 2])):
+            g.add(wallet, rng.choice([15000000, 40000000, 1000000000]), rand_assets(rng) if rng.random() < 0.3 else [])
     taken = trigger_indices([trig] + extra)
     free = [i for i in range(len(g.utxos)) if i not in taken]
     sc = {'mode': 'build', 'pp': pp, 'fee_buffer': fee_buffer, 'threshold': threshold, 'trigger': trig, 'extra': extra,
@@ -356,6 +365,9 @@ def gen_build(rng):
         sc['excluded'] = at_wallet
     for _ in range(rng.choice([0, 1, 1, 2])):
         sc['outputs'].append({'addr': rng.choice([wallet, other]).hex(), 'coin': rng.choice([1500000, 3000000, 10000000]), 'assets': []})
+    if deployed:
+        sc['inputs'], sc['input_addresses'] = [i for i in sc['inputs'] if 'script' not in g.utxos[i]], [wallet.hex()]
+        sc['outputs'].append({'addr': other.hex(), 'coin': rng.choice([9000000, 15000000, 25000000]), 'assets': []})
     r = rng.random()
     if r < 0.12:
         sc['coll_change'] = other.hex()
